@@ -199,11 +199,13 @@ impl<'a> AasmParser<'a> {
                 encode_a(OpCode::StoreMem, a, b, c)
             }
             "StoreMemI" => {
+                // StoreMemI rPtr, offset, rValue: the immediate is operand b (as the VM
+                // decodes it and the disassembler prints it)
                 let a = self.parse_register()?;
                 self.skip_comma()?;
-                let b = self.parse_register()?;
+                let b = self.parse_u8()?;
                 self.skip_comma()?;
-                let c = self.parse_u8()?;
+                let c = self.parse_register()?;
                 encode_a(OpCode::StoreMemI, a, b, c)
             }
             "Print" => {
